@@ -31,13 +31,16 @@ theorem C12_count_inv (cfg : Cfg) (ops : List Op) (k : Svc) :
   · simp only [registered]; rw [h1]; simp
   · rw [h2]; simp
 
-/-- **The working tree contains all six repairs**: the switch values extracted from `trigger_init`,
+/-- **The working tree contains all eight repairs**: the switch values extracted from `trigger_init`,
 `ServiceDecorator.start`, `on_func_var_deleted`, `GlobalContext.start`, `service_register` / `service_remove` (the
-lower-cased key) and the built-in name tests of `trigger_init` / `ServiceDecorator.validate` are the repaired ones
-(undoing a repair in the source makes this theorem fail). -/
+lower-cased key), the built-in name tests of `trigger_init` / `ServiceDecorator.validate`, the place where `trigger_init`
+enters the function in its context's trigger registry (C12-F11) and the way the entity-method call form is finished
+(C12-F8: `State.get` / `Function.hass_services_async_call`) are the repaired ones (undoing a repair in the source makes
+this theorem fail). -/
 theorem C12_cfg_current :
-    legacyCfg = ⟨true, false, false, false, false, true, false, false, true, true⟩ ∧
-    newCfg = ⟨false, false, true, true, true, false, true, true, true, true⟩ := by decide
+    legacyCfg = ⟨true, false, false, false, false, true, false, false, true, true, true⟩ ∧
+    newCfg = ⟨false, false, true, true, true, false, true, true, true, true, true⟩ ∧
+    outCfg = ⟨true, true⟩ := by decide
 
 /-- **A refused name is not remembered** (tie of `acquireAll`, which tracks a name only after `register` accepted it, to the
 source): in `trigger_init` the statement `self.trigger_service.add(srv_name)` comes after `Function.service_register(...)`,
@@ -77,8 +80,8 @@ theorem C12_count_exact_partial (cfg : Cfg) (hd : cfg.delayTopLevel = false) (op
 /-- **In the legacy subsystem the holders are exactly live functions**: after any operation sequence every holder is
 bound to its global variable and running – so the counts above count declarations of *live* functions.  (For the new
 subsystem see `C12_holders_bound`.) -/
-theorem C12_legacy_holders_live (cfg : Cfg) (hd : cfg.delayTopLevel = false) (ops : List Op) (h : Holder)
-    (hm : h ∈ (run cfg {} ops).holders) : h.bound = true ∧ h.status = .running := by
+theorem C12_legacy_holders_live (cfg : Cfg) (hd : cfg.delayTopLevel = false) (he : cfg.regEarly = true) (ops : List Op)
+    (h : Holder) (hm : h ∈ (run cfg {} ops).holders) : h.bound = true ∧ h.status = .running := by
   have keep : ∀ (ctx var : String) (hs : List Holder), (∀ x ∈ hs, x.bound = true ∧ x.status = .running) →
       ∀ x ∈ unbindHolders cfg ctx var hs, x ∈ hs := by
     intro ctx var hs
@@ -107,7 +110,7 @@ theorem C12_legacy_holders_live (cfg : Cfg) (hd : cfg.delayTopLevel = false) (op
       cases op with
       | start ctx events => simp only [step, hd, Bool.false_eq_true, if_false]; exact hp
       | delete ctx var => intro x hx; exact hp x (keep ctx var _ hp x hx)
-      | unload ctx => intro x hx; exact hp x (List.mem_filter.mp hx).1
+      | unload ctx => intro x hx; exact hp x (unload_keeps cfg he ctx st.holders x hx)
       | define ctx fn var gen decl =>
         intro x hx
         simp only [step, defineStep, hd, Bool.false_and, Bool.false_eq_true, if_false] at hx
@@ -124,11 +127,11 @@ theorem C12_legacy_holders_live (cfg : Cfg) (hd : cfg.delayTopLevel = false) (op
 dies before the delayed start is discarded (`cfg.dropDelayed`), every holder – running or still waiting for
 `GlobalContext.start()` – is bound to its global variable after any operation sequence; no manager outlives its
 function any more (`C12_regress_redefined_at_load` is the pre-fix witness).  Promoted from `C12_legacy_holders_live`. -/
-theorem C12_holders_bound (cfg : Cfg) (hc : cfg.dropDelayed = true ∨ cfg.delayTopLevel = false) (ops : List Op)
-    (h : Holder) (hm : h ∈ (run cfg {} ops).holders) : h.bound = true := by
+theorem C12_holders_bound (cfg : Cfg) (hc : cfg.dropDelayed = true ∨ cfg.delayTopLevel = false) (he : cfg.regEarly = true)
+    (ops : List Op) (h : Holder) (hm : h ∈ (run cfg {} ops).holders) : h.bound = true := by
   rcases hc with hc | hc
   rotate_left
-  · exact (C12_legacy_holders_live cfg hc ops h hm).1
+  · exact (C12_legacy_holders_live cfg hc he ops h hm).1
   have keep : ∀ (ctx var : String) (hs : List Holder), ∀ x ∈ unbindHolders cfg ctx var hs, x ∈ hs := by
     intro ctx var hs
     induction hs with
@@ -190,7 +193,7 @@ theorem C12_holders_bound (cfg : Cfg) (hc : cfg.dropDelayed = true ∨ cfg.delay
         · exact evs ctx events st hp
         · exact hp
       | delete ctx var => intro x hx; exact hp x (keep ctx var _ x hx)
-      | unload ctx => intro x hx; exact hp x (List.mem_filter.mp hx).1
+      | unload ctx => intro x hx; exact hp x (unload_keeps cfg he ctx st.holders x hx)
       | define ctx fn var gen decl =>
         intro x hx
         simp only [step, defineStep] at hx
@@ -337,6 +340,15 @@ theorem C12_bind (sigs : List (Nat × Sig)) (s : Sig) (g : Nat) (kw : Kw) (rr : 
   · rcases hr with hr | hr <;> simp [bound, hs, h, hr]
   · simp [bindOK, List.all_eq_true]
 
+/-- **The control tables of the three call forms, as extracted** (tie of `controlTable`, which is built from the rows the
+extractor reads off the `for keyword, typ, default in [...]` loops of `Function.service_call`, `Function.get` and
+`State.get`): `context` / `blocking` / `return_response` with their types, and – entity-method form only – a numeric
+`limit` (C12-F7: Home Assistant has no such parameter any more). -/
+theorem C12_control_tables (e : Entry) :
+    controlTable e = [("context", [.context]), ("blocking", [.bool]), ("return_response", [.bool])] ++
+      (if e = .entityMethod then [("limit", [.float, .int])] else []) := by
+  cases e <;> decide
+
 /-- **Outgoing calls deliver exactly the given keyword parameters**: with distinct keywords and no task context, the
 service data of `service.call` / `domain.service()` / `domain.entity.service()` is every keyword that is not a call
 control of the right type, in the given order (decision logic over the control table of the entry point); an entity
@@ -378,8 +390,9 @@ theorem C12_call_split (e : Entry) (entity : String) (kwargs : List Arg) (hn : (
     rw [rows _ _ hn]
     apply List.filter_congr
     intro a _
+    rw [C12_control_tables]
     cases e <;> cases hty : a.ty <;>
-      simp [controlTable, isControl, hty, Bool.and_comm, bd]
+      simp [isControl, hty, Bool.and_comm, bd]
   refine ⟨key, ?_⟩
   rw [key]
   unfold callData sData
@@ -577,6 +590,24 @@ theorem C12_refusal_cex :
     registered (run newCfg {} n).reg s2 = false ∧ sHandler (sRun [] n) s2 = some ⟨2, .none⟩ ∧
     aget s1 (run legacyCfg {} l).reg.handler = some ⟨1, .none⟩ ∧ aget s1 (run newCfg {} n).reg.handler = some ⟨1, .none⟩ := by
   decide
+
+/-- **F11 – regression witness (legacy)**: context `b` declares `s2` (free) and `s1` (owned by `a`) on one function: `s2`
+is registered, the refusal of `s1` aborts `trigger_init`.  Before the repair the function was then unknown to its
+context's trigger registry, so unloading `b` released nothing: `s2` stayed registered (count 1, owner `b`, the handler
+of the dead definition 2) with a holder no variable refers to – for ever.  Now the context knows the function from
+its first registration on: the unload releases `s2`.  (`del g` released correctly before and after.) -/
+theorem C12_regress_unload_after_refusal :
+    let ops := [Op.define "a" none "f" 1 [(s1, .none)], .define "b" none "g" 2 [(s2, .none), (s1, .none)], .unload "b"]
+    let del := [Op.define "a" none "f" 1 [(s1, .none)], .define "b" none "g" 2 [(s2, .none), (s1, .none)], .delete "b" "g"]
+    aget s2 (run (registeredLate legacyCfg) {} ops).reg.handler = some ⟨2, .none⟩ ∧
+    cntOf (run (registeredLate legacyCfg) {} ops).reg s2 = 1 ∧
+    aget s2 (run (registeredLate legacyCfg) {} ops).reg.owner = some ⟨"b", none⟩ ∧
+    (run (registeredLate legacyCfg) {} ops).holders.any (fun h => h.gen == 2 && !h.bound) = true ∧
+    sRegistered (sRun [] ops) s2 = false ∧
+    registered (run legacyCfg {} ops).reg s2 = false ∧ cntOf (run legacyCfg {} ops).reg s2 = 0 ∧
+    (run legacyCfg {} ops).holders.length = 1 ∧
+    registered (run (registeredLate legacyCfg) {} del).reg s2 = false ∧ registered (run legacyCfg {} del).reg s2 = false ∧
+    aget s1 (run legacyCfg {} ops).reg.handler = some ⟨1, .none⟩ := by decide
 
 /-! ## non-vacuity -/
 
